@@ -74,7 +74,7 @@ var c15Nodes []mimetype.VerifNode
 // kind "c15is": Ints = [node index, ci, li, ti, pi], Strs = [name]
 func c15IsEval(cs *core.Case) (bool, string, string) {
 	if c15Nodes == nil {
-		c15Nodes = mimetype.VerifNodes()
+		c15Nodes = c15NodeList()
 	}
 	nd := c15Nodes[cs.Ints[0]]
 	s := decorate(cs.Strs[0], cs.Ints[1], cs.Ints[2], cs.Ints[3], cs.Ints[4])
@@ -157,6 +157,7 @@ func c15ResEval(cs *core.Case) (bool, string, string) {
 
 // kind "c15lookup": Strs[0] = registered name or alias
 func c15LookupEval(cs *core.Case) (bool, string, string) {
+	c15Register()
 	n := cs.Strs[0]
 	l := mimetype.Lookup(n)
 	if l == nil {
@@ -175,8 +176,51 @@ func c15Setup(c *core.Ctx) {
 	c.Register("c15lookup", c15LookupEval)
 }
 
+// c15Extensions are registered (with detectors that never match) before the
+// matrices are built, so that names and aliases registered through Extend are
+// part of every matrix. The oracle takes their aliases from this table, not from
+// what the implementation stored.
+var c15Extensions = []struct {
+	parent, name, ext string
+	aliases           []string
+}{
+	{"", "x/c15-root", ".c15a", []string{"x/c15-root-alias1", "x/c15-root-alias2"}},
+	{"text/plain", "x/c15-text", ".c15b", []string{"x/c15-text-alias"}},
+	{"application/zip", "x/c15-zip", ".c15c", nil},
+}
+
+var c15Registered bool
+
+func c15Register() {
+	if c15Registered {
+		return
+	}
+	c15Registered = true
+	never := func([]byte, uint32) bool { return false }
+	for _, e := range c15Extensions {
+		if e.parent == "" {
+			mimetype.Extend(never, e.name, e.ext, e.aliases...)
+		} else {
+			mimetype.Lookup(e.parent).Extend(never, e.name, e.ext, e.aliases...)
+		}
+	}
+}
+
+func c15NodeList() []mimetype.VerifNode {
+	c15Register()
+	nodes := mimetype.VerifNodes()
+	for i := range nodes {
+		for _, e := range c15Extensions {
+			if nodes[i].Name == e.name {
+				nodes[i].Aliases = e.aliases // what was registered, not what was stored
+			}
+		}
+	}
+	return nodes
+}
+
 func c15Run(c *core.Ctx) {
-	c15Nodes = mimetype.VerifNodes()
+	c15Nodes = c15NodeList()
 	var names []string
 	seen := map[string]bool{}
 	for _, n := range c15Nodes {
